@@ -141,9 +141,12 @@ func Verif_C19_fb_write() {
 	x, y := zzverif.U32("x"), zzverif.U32("y")
 	// case split: coordinates inside the grid are enumerated (so that pixel addresses are concrete on each
 	// path), coordinates outside it stay symbolic; together the cases cover every 32-bit x, y
-	if x >= 1 && x <= f.cols && y >= 1 && y <= f.rows {
-		x = uint32(zzverif.Split("x", uint64(x), 4))
-		y = uint32(zzverif.Split("y", uint64(y), 4))
+	// (values just outside the grid are enumerated too: a driver that wrongly accepts them then works on concrete addresses)
+	if x <= f.cols+2 {
+		x = uint32(zzverif.Split("x", uint64(x), 6))
+	}
+	if y <= f.rows+2 {
+		y = uint32(zzverif.Split("y", uint64(y), 6))
 	}
 	panicked := zzverif.Catch(func() { f.cons.Write(ch, fg, bg, x, y) })
 	zzverif.Assert(!panicked, "Write never touches memory outside the framebuffer")
@@ -171,17 +174,17 @@ func Verif_C19_fb_fill() {
 	bg := vfColour("bg")
 	x, y, w, h := zzverif.U32("x"), zzverif.U32("y"), zzverif.U32("w"), zzverif.U32("h")
 	// case split as in fb_write: small values are enumerated, large ones stay symbolic (the driver clamps them to constants)
-	if x <= f.cols {
-		x = uint32(zzverif.Split("x", uint64(x), 4))
+	if x <= f.cols+2 {
+		x = uint32(zzverif.Split("x", uint64(x), 6))
 	}
-	if y <= f.rows {
-		y = uint32(zzverif.Split("y", uint64(y), 4))
+	if y <= f.rows+2 {
+		y = uint32(zzverif.Split("y", uint64(y), 6))
 	}
-	if w <= f.cols {
-		w = uint32(zzverif.Split("w", uint64(w), 4))
+	if w <= f.cols+2 {
+		w = uint32(zzverif.Split("w", uint64(w), 6))
 	}
-	if h <= f.rows {
-		h = uint32(zzverif.Split("h", uint64(h), 4))
+	if h <= f.rows+2 {
+		h = uint32(zzverif.Split("h", uint64(h), 6))
 	}
 	panicked := zzverif.Catch(func() { f.cons.Fill(x, y, w, h, 0, bg) })
 	zzverif.Assert(!panicked, "Fill never touches memory outside the framebuffer")
